@@ -1,4 +1,5 @@
 import RpcVerif.Lemmas.ConnProps
+import RpcVerif.Generated.ConnFacts
 /-
   C02 — every call completes exactly once (client connection automaton K, Model/ConnSM.lean).
   The statements quantify over every accepted event sequence: any number of calls of any form,
@@ -58,5 +59,14 @@ def d1Trace : List Ev :=
 
 example : ((runTrace (init ⟨false, false⟩) d1Trace).bind (·.calls 1)).map (fun c => (c.signals, c.errHist)) = some (1, [.rfail]) := by
   decide
+
+/-- K's events are the critical sections of conn.go as they stand in the source read on this run:
+    the write-error path completes a call, and sets its Error, only if that path itself removed the
+    call from the pending table under the lock (event `sendUnreg` before `sendFail`); a frame that
+    arrives after the sweep is dropped before the table is consulted; send refuses inside the
+    critical section that would register. -/
+theorem C02_source_facts :
+    (Gen.connWriteErrorCompletesOnlyRegistered && Gen.connReadDropsFramesAfterShutdown && Gen.connSendRefusesUnderLock &&
+     Gen.connSetsShutdownInsideSweep) = true := by decide
 
 end RpcVerif.Props
